@@ -5923,9 +5923,12 @@ class PyCdlib:
         if signature != b'\xfb\xc0\x78\x70':
             raise pycdlibexception.PyCdlibInvalidInput('Invalid signature on boot file for iso hybrid')
 
-        self.isohybrid_mbr = isohybrid.IsoHybrid()
-        self.isohybrid_mbr.new(efi, mac, part_entry, mbr_id, part_offset,
-                               geometry_sectors, geometry_heads, part_type)
+        # new() refuses invalid parameters; only a fully set up object
+        # becomes the MBR of this ISO.
+        new_mbr = isohybrid.IsoHybrid()
+        new_mbr.new(efi, mac, part_entry, mbr_id, part_offset,
+                    geometry_sectors, geometry_heads, part_type)
+        self.isohybrid_mbr = new_mbr
 
         # The boot file addresses in the MBR are filled in while assigning
         # extents, so that has to happen (again) now.
